@@ -38,6 +38,7 @@ type c14World struct {
 	n, m                           int64
 	target                         []*sFile
 	sawRepeatOrUnnamedBeforeQuorum bool
+	sawSpelled                     bool
 	fired                          int
 }
 
@@ -118,21 +119,36 @@ func (w *c14World) storedForm(kind, prover string, f *sFile) (named []string, co
 }
 
 func (w *c14World) request(kind string, signer chain.Account, prover string, f *sFile) (string, string) {
+	return w.requestSpelled(kind, signer, prover, f, false)
+}
+
+// requestSpelled is request with the prover (the creator, for attestation forms) written in
+// upper case: either nothing happens or everything happens as for the canonical spelling.
+func (w *c14World) requestSpelled(kind string, signer chain.Account, prover string, f *sFile, upProver bool) (string, string) {
 	key := c14Key(kind, prover, f)
 	_, had := w.forms[key]
 	before := w.snap()
 	var res chain.Result
 	var success bool
 	var emsg string
+	spProver, spCreator := prover, signer.Bech
+	if upProver {
+		w.sawSpelled = true
+		spProver = strings.ToUpper(prover)
+		if kind == "attest" {
+			spCreator = strings.ToUpper(signer.Bech)
+		}
+		defer func() { w.logf("(the prover was spelled in upper case in that request)") }()
+	}
 	if kind == "attest" {
-		res = w.f.Exec(storagetypes.NewMsgRequestAttestationForm(signer.Bech, f.Merkle, f.Owner, f.Start))
+		res = w.f.Exec(storagetypes.NewMsgRequestAttestationForm(spCreator, f.Merkle, f.Owner, f.Start))
 		if res.OK() {
 			var r storagetypes.MsgRequestAttestationFormResponse
 			must(res.Decode(&r))
 			success, emsg = r.Success, r.Error
 		}
 	} else {
-		res = w.f.Exec(storagetypes.NewMsgRequestReportForm(signer.Bech, prover, f.Merkle, f.Owner, f.Start))
+		res = w.f.Exec(storagetypes.NewMsgRequestReportForm(signer.Bech, spProver, f.Merkle, f.Owner, f.Start))
 		if res.OK() {
 			var r storagetypes.MsgRequestReportFormResponse
 			must(res.Decode(&r))
@@ -142,6 +158,11 @@ func (w *c14World) request(kind string, signer chain.Account, prover string, f *
 	w.logf("request %s form by %s about prover %s on %s -> success=%v %s", kind, short(signer.Bech), short(prover), f.id(), success, trunc(emsg, 70))
 	if s, m := w.noEffect(before, "request "+kind+" form"); s != "" {
 		return s, m
+	}
+	if upProver {
+		if _, _, strange := w.storedForm(kind, strings.ToUpper(prover), f); strange {
+			return "C14/form-under-second-spelling", fmt.Sprintf("a %s form is stored under the upper-case spelling of %s", kind, short(prover))
+		}
 	}
 	named, complete, found := w.storedForm(kind, prover, f)
 	if !success {
@@ -198,15 +219,61 @@ func (w *c14World) noEffect(before c14Snap, what string) (string, string) {
 	return "", ""
 }
 
+// formSig renders the stored form of (kind, prover spelling, file) for before/after comparison.
+func (w *c14World) formSig(kind, prover string, f *sFile) string {
+	named, complete, found := w.storedForm(kind, prover, f)
+	var done []string
+	for p := range complete {
+		done = append(done, p)
+	}
+	sort.Strings(done)
+	return fmt.Sprintf("%v|%v|%v", found, named, done)
+}
+
 func (w *c14World) sign(kind string, signer chain.Account, prover string, f *sFile) (string, string) {
+	return w.signSpelled(kind, signer, prover, f, false, false)
+}
+
+// signSpelled is sign with the prover and/or the signer written in upper case (valid bech32
+// for the same accounts).  The chain may treat such a spelling as a different string (then
+// the message must change nothing at all) or as the account it denotes (then the message
+// must behave exactly like the canonically spelled one); anything in between is a violation.
+func (w *c14World) signSpelled(kind string, signer chain.Account, prover string, f *sFile, upProver, upSigner bool) (string, string) {
 	key := c14Key(kind, prover, f)
 	form := w.forms[key]
 	before := w.snap()
+	spProver, spSigner := prover, signer.Bech
+	if upProver {
+		spProver = strings.ToUpper(prover)
+	}
+	if upSigner {
+		spSigner = strings.ToUpper(signer.Bech)
+	}
+	formBefore := w.formSig(kind, prover, f)
 	var res chain.Result
 	if kind == "attest" {
-		res = w.f.Exec(storagetypes.NewMsgAttest(signer.Bech, prover, f.Merkle, f.Owner, f.Start))
+		res = w.f.Exec(storagetypes.NewMsgAttest(spSigner, spProver, f.Merkle, f.Owner, f.Start))
 	} else {
-		res = w.f.Exec(storagetypes.NewMsgReport(signer.Bech, prover, f.Merkle, f.Owner, f.Start))
+		res = w.f.Exec(storagetypes.NewMsgReport(spSigner, spProver, f.Merkle, f.Owner, f.Start))
+	}
+	if upProver || upSigner {
+		w.sawSpelled = true
+		if _, _, strange := w.storedForm(kind, strings.ToUpper(prover), f); strange {
+			return "C14/form-under-second-spelling", fmt.Sprintf("a %s form is stored under the upper-case spelling of %s", kind, short(prover))
+		}
+		after := w.snap()
+		same := formBefore == w.formSig(kind, prover, f)
+		for k, v := range before.last {
+			same = same && after.last[k] == v
+		}
+		for k, v := range before.listed {
+			same = same && after.listed[k] == v
+		}
+		if same {
+			w.logf("%s by %s about %s on %s with upper-case spelling (prover=%v signer=%v) -> %s, nothing changed", kind, short(signer.Bech), short(prover), f.id(), upProver, upSigner, res)
+			return "", ""
+		}
+		w.logf("%s with upper-case spelling (prover=%v signer=%v) changed state: judged like the canonical spelling", kind, upProver, upSigner)
 	}
 	named := false
 	if form != nil {
@@ -407,16 +474,16 @@ func TestC14(t *testing.T) {
 				if rapid.IntRange(0, 9).Draw(rt, "byOther") == 0 {
 					signer = w.everyone[rapid.IntRange(0, len(w.everyone)-1).Draw(rt, "who")]
 				}
-				fail(w.request("attest", signer, signer.Bech, f))
+				fail(w.requestSpelled("attest", signer, signer.Bech, f, rapid.IntRange(0, 7).Draw(rt, "upperProver") == 0))
 			},
 			"requestReport": func(rt *rapid.T) {
 				p, f := drawTarget(rt)
-				fail(w.request("report", w.everyone[rapid.IntRange(0, len(w.everyone)-1).Draw(rt, "who")], p.Bech, f))
+				fail(w.requestSpelled("report", w.everyone[rapid.IntRange(0, len(w.everyone)-1).Draw(rt, "who")], p.Bech, f, rapid.IntRange(0, 7).Draw(rt, "upperProver") == 0))
 			},
 			"attest": func(rt *rapid.T) {
 				form := openForm(rt, "attest")
 				if form != nil {
-					fail(w.sign("attest", drawSigner(rt, form), form.Prover, form.File))
+					fail(w.signSpelled("attest", drawSigner(rt, form), form.Prover, form.File, rapid.IntRange(0, 5).Draw(rt, "upperProver") == 0, rapid.IntRange(0, 9).Draw(rt, "upperSigner") == 0))
 					return
 				}
 				p, f := drawTarget(rt)
@@ -425,7 +492,7 @@ func TestC14(t *testing.T) {
 			"report": func(rt *rapid.T) {
 				form := openForm(rt, "report")
 				if form != nil {
-					fail(w.sign("report", drawSigner(rt, form), form.Prover, form.File))
+					fail(w.signSpelled("report", drawSigner(rt, form), form.Prover, form.File, rapid.IntRange(0, 5).Draw(rt, "upperProver") == 0, rapid.IntRange(0, 9).Draw(rt, "upperSigner") == 0))
 					return
 				}
 				p, f := drawTarget(rt)
@@ -442,6 +509,9 @@ func TestC14(t *testing.T) {
 		rec.Count(fmt.Sprintf("n=%d,m=%d", n, m))
 		if w.fired > 0 {
 			rec.Count("histories-with-a-quorum")
+		}
+		if w.sawSpelled {
+			rec.Count("histories-with-an-upper-case-spelling")
 		}
 		rec.Case(w.sawRepeatOrUnnamedBeforeQuorum, ev.Hash(w.trace...), func() interface{} { return w.trace })
 	})
